@@ -5,5 +5,8 @@ CONSTANTS
   WithEmpty = FALSE
   MaxPathLen = 4
   ModelKinds = {"timeout"}
+  ChainLen = 3
+  Changes = {}
 INVARIANTS TypeOK DirectMatch LevelByLevel FromLongestPrefix OthersIrrelevant EmptyNeverUsed
+PROPERTIES RepeatSame ChangeRespected CurrentTreeOnly
 CHECK_DEADLOCK FALSE
